@@ -54,6 +54,7 @@ const K_CTOR: W = 2;
 const K_ENC: W = 3;
 const K_WHIST: W = 4;
 const K_READ: W = 5;
+const K_CONV: W = 7;
 
 fn case_table(c: &mut Cur) -> Result<Vec<W>, BadCase> {
     let code = c.next()?;
@@ -428,6 +429,91 @@ fn case_read(c: &mut Cur) -> Result<Vec<W>, BadCase> {
     }
 }
 
+
+/// Kind 7: conversions between the generic `Shape` and the concrete types.
+/// [requested type code S; n; n ctor specs] ->
+/// per shape: Shape::shapetype() code, <T as HasShapeType>::shapetype() code of
+/// its concrete type (0 for the null shape), S::try_from(shape) rendered
+/// (Ok: Shape::from(value) rendered; Err: the error), then the bulk conversion
+/// convert_shapes_to_vec_of::<S>(all shapes).
+macro_rules! conv_as {
+    ($T:ty, $mk:expr, $out:expr) => {{
+        // `Shape` is not Clone: the shapes are rebuilt from the specs for every use
+        let n = $mk().len();
+        for k in 0..n {
+            let s = $mk().swap_remove(k);
+            $out.push(s.shapetype() as i32 as W);
+            let concrete: W = with_concrete!(&s, x => concrete_type_of(x) as i32 as W, 0);
+            $out.push(concrete);
+            match <$T>::try_from(s) {
+                Ok(v) => {
+                    $out.push(0);
+                    render_shape(&Shape::from(v), $out);
+                }
+                Err(e) => {
+                    $out.push(1);
+                    render_error(&e, $out);
+                }
+            }
+        }
+        match convert_shapes_to_vec_of::<$T>($mk()) {
+            Ok(v) => {
+                $out.push(0);
+                $out.push(v.len() as W);
+                for x in v {
+                    render_shape(&Shape::from(x), $out);
+                }
+            }
+            Err(e) => {
+                $out.push(1);
+                render_error(&e, $out);
+            }
+        }
+    }};
+}
+
+fn concrete_type_of<T: HasShapeType>(_x: &T) -> ShapeType {
+    T::shapetype()
+}
+
+fn case_conv(c: &mut Cur) -> Result<Vec<W>, BadCase> {
+    let req = c.next()?;
+    let n = c.n()?;
+    let specs_start = c.i;
+    for _ in 0..n {
+        if build(read_ctor(c)?).is_err() {
+            return Ok(vec![-3]);
+        }
+    }
+    if !c.at_end() {
+        return Err(BadCase);
+    }
+    let v = c.v;
+    let mk = || -> Vec<Shape> {
+        let mut c2 = Cur { v, i: specs_start };
+        (0..n).map(|_| build(read_ctor(&mut c2).unwrap()).unwrap()).collect()
+    };
+    let mut out = vec![];
+    let o = &mut out;
+    match req {
+        1 => conv_as!(Point, mk, o),
+        21 => conv_as!(PointM, mk, o),
+        11 => conv_as!(PointZ, mk, o),
+        3 => conv_as!(Polyline, mk, o),
+        23 => conv_as!(PolylineM, mk, o),
+        13 => conv_as!(PolylineZ, mk, o),
+        5 => conv_as!(Polygon, mk, o),
+        25 => conv_as!(PolygonM, mk, o),
+        15 => conv_as!(PolygonZ, mk, o),
+        8 => conv_as!(Multipoint, mk, o),
+        28 => conv_as!(MultipointM, mk, o),
+        18 => conv_as!(MultipointZ, mk, o),
+        31 => conv_as!(Multipatch, mk, o),
+        _ => return Err(BadCase),
+    }
+    Ok(out)
+}
+
 fn run_case(v: &[W]) -> Vec<W> {
     let mut c = Cur::new(v);
     let r = match c.next() {
@@ -436,6 +522,7 @@ fn run_case(v: &[W]) -> Vec<W> {
         Ok(K_ENC) => case_enc(&mut c),
         Ok(K_WHIST) => case_whist(&mut c),
         Ok(K_READ) => case_read(&mut c),
+        Ok(K_CONV) => case_conv(&mut c),
         _ => Err(BadCase),
     };
     match r {
